@@ -104,6 +104,11 @@ def verify(contract, callee_contracts=None, spec_functions=None, options=None):
         if k >= n_loops and not getattr(contract.loops[k], "match", None):
             raise BindingError("%s: loop %d named by the contract does not exist" % (contract.qualname, k))
     for k, ls in contract.loops.items(): ex.loop_specs[(contract.qualname, k)] = ls
+    # a local the loop contract names (to give it a fresh value per iteration) has to be a local of the current source: after a rename the
+    # contract's models would read a variable the code never writes, and what they then "refute" says nothing about the code
+    bound = {n.id for n in ast.walk(fn) if isinstance(n, ast.Name) and isinstance(n.ctx, ast.Store)} | {a.arg for a in ast.walk(fn) if isinstance(a, ast.arg)} \
+            | {h.name for h in ast.walk(fn) if isinstance(h, ast.ExceptHandler) and h.name}
+    ex._assigned_names = bound
     st = State(); st.frames = [Frame(mod, cls, {})]
     contract.setup(ex, st)                   # binds params in st.frames[-1].env, builds heap
     # parameters the setup leaves unbound take the default written in the current source (so that a changed default is seen)
